@@ -24,7 +24,7 @@ def gen_scenarios(rnd: random.Random, count, topos=TOPOS, max_r=4):
                     'failfast': rnd.random() < 0.6, 'abandon': [1] if rnd.random() < 0.25 else [],
                     'dur': {s: [rnd.choice([0, 0, 1, 2, 4]) for _ in range(nr + 1)] for s in stages},
                     'delay': [rnd.choice([0, 0, 1, 2]) for _ in range(nr + 1)],
-                    'bwait': rnd.choice([0, 1, 2])})
+                    'bwait': rnd.choice([0, 1, 2]), 'hop': rnd.random() < 0.5, 'hook': rnd.random() < 0.5})
     return out
 
 
@@ -92,6 +92,11 @@ def _install():
             if w in ('w', 'wc'):
                 # logged before the real put: a consumer can only get the item afterwards
                 detsched.emit('QPut', q=nm, who=w, n=n, u=small_uid(item[0]))
+            if _ctx.get('hop'):
+                # emulate a PROCESS queue: the item goes through a pickle round trip (a RemoteException wrapper arrives as
+                # the original exception with its remote traceback attached, exactly as across a real process boundary)
+                import pickle
+                item = pickle.loads(pickle.dumps(item))
         return oput(self, item, *a, **k)
 
     Q.put = put
@@ -166,10 +171,13 @@ def _make_scenario(sc):
                 ys = [(stage, v) for v in xs]
                 return ys if batch else ys[0]
 
-        if sc.get('pre', {}).get(stage):
-            rejected = set(sc['pre'][stage])
+        if sc.get('pre', {}).get(stage) or sc.get('hook'):
+            rejected = set(sc.get('pre', {}).get(stage) or [])
 
             def preprocess(self, x):
+                if not isinstance(x, tuple):
+                    # a strict hook, as user code typically is: it must only ever see genuine inputs
+                    raise TypeError(f'preprocess of stage {stage} was given {type(x).__name__}, not an input')
                 r = req_of(x)
                 if r in rejected:
                     raise ElemError(r, 'P' + stage)
@@ -212,6 +220,7 @@ def _make_scenario(sc):
     def root():
         sched = detsched.current()
         _ctx['qname'].clear()
+        _ctx['hop'] = bool(sc.get('hop'))
         _ctx['uid'].clear()
         _ctx['nextu'][0] = 0
         servlet = build()
